@@ -498,14 +498,21 @@ class Inliner:
                 defaults[a.arg] = d
         bound: Dict[str, ast.AST] = {}
         args = list(call.args)
-        if any(isinstance(a, ast.Starred) for a in args) or any(k.arg is None for k in call.keywords):
-            self.skipped.append((qual, h.qual, "star arguments at the call"))
-            return None
         if h.kind in ("method", "classmethod") and h.cls is not None:
             if recv is None:
                 return None
             bound[pos[0]] = recv
             pos = pos[1:]
+        if args and isinstance(args[-1], ast.Starred) and not any(isinstance(a, ast.Starred) for a in args[:-1]) and hn.args.vararg is None \
+                and _simple(args[-1].value) and not any(k.arg is None for k in call.keywords):
+            # f(a, *t) for a helper without *args: t supplies exactly the remaining positional parameters (t[0], t[1], ...)
+            named = {k.arg for k in call.keywords}
+            rest = [p_ for p_ in pos[len(args) - 1:] if p_ not in named and p_ not in defaults]
+            seq = args[-1].value
+            args = args[:-1] + [ast.Subscript(value=copy.deepcopy(seq), slice=ast.Constant(value=i), ctx=ast.Load()) for i in range(len(rest))]
+        if any(isinstance(a, ast.Starred) for a in args) or any(k.arg is None for k in call.keywords):
+            self.skipped.append((qual, h.qual, "star arguments at the call"))
+            return None
         va = hn.args.vararg.arg if hn.args.vararg else None
         extra: List[ast.AST] = []
         if len(args) > len(pos):
